@@ -1299,7 +1299,8 @@ def m_prefix_fold(interp, args, kwargs):
     where 0 < i <= len(xs) is entailed by the path condition (e.g. at `_i + 1` when an invariant is
     re-established).  f must be a module-level function: a pure function of its two arguments."""
     import hashlib
-    f, init, xs, i = args
+    f, init, xs, i = args[:4]
+    extra = list(args[4:])          # further (fixed) arguments of the step function: f(acc, x, *extra)
     if isinstance(xs, (SOpt, SChoice)):
         xs = interp.resolve(xs)
     if isinstance(i, (SOpt, SChoice)):
@@ -1310,13 +1311,16 @@ def m_prefix_fold(interp, args, kwargs):
         if isinstance(i, Sym):
             raise Unsupported('prefix_fold: symbolic index into a concrete sequence')
         for x in items[:i]:
-            acc = interp.call(f, [acc, x], {})
+            acc = interp.call(f, [acc, x] + extra, {})
         return acc
     if not isinstance(f, types.FunctionType) or f.__closure__:
         raise Unsupported('prefix_fold: the step function must be a module-level function')
     if isinstance(i, int) and i == 0:
         return init
     sig, shape = _fold_sig(init)
+    for e in extra:
+        part, terms = _ghost_arg(e)
+        sig += '|%s(%s)' % (part, ','.join(z3.simplify(t).sexpr() for t in terms))
     name = 'fold.%s.%s' % (f.__name__, hashlib.sha1(('%s:%s|%s|%s' % (f.__module__, f.__qualname__, xs.uid, sig))
                                                     .encode()).hexdigest()[:10])
     st = interp.st
@@ -1333,11 +1337,15 @@ def m_prefix_fold(interp, args, kwargs):
     st.assume(z3.Implies(t == 0, to_z3(_fold_equal(interp, value, init))))
     if st.must_hold(z3.And(t >= 1, t <= xs.length)):
         prev_t = z3.simplify(t - 1)
-        prev = init if (z3.is_int_value(prev_t) and prev_t.as_long() == 0) else _fold_value(interp, name, shape, prev_t)
+        if z3.is_int_value(prev_t) and prev_t.as_long() == 0:
+            prev = init
+        else:
+            prev = _fold_value(interp, name, shape, prev_t)
+            st.assume(z3.Implies(prev_t == 0, to_z3(_fold_equal(interp, prev, init))))
         x = slist_elem(interp, xs, prev_t)
         if isinstance(prev, SMap):
             prev = prev.copy(interp)
-        nxt = interp.call(f, [prev, x], {})
+        nxt = interp.call(f, [prev, x] + extra, {})
         st.assume(_fold_equal(interp, value, nxt))
     return value
 
